@@ -19,6 +19,7 @@ import Driver.C12
 import Driver.C13
 import Driver.C17
 import Driver.C08
+import Driver.C02
 open Driver
 
 def dispatch (op : String) (args : List String) (obs : String) : Option Verdict :=
@@ -42,6 +43,7 @@ def dispatch (op : String) (args : List String) (obs : String) : Option Verdict 
   <|> (Driver.C13.handle op args obs)
   <|> (Driver.C17.handle op args obs)
   <|> (Driver.C08.handle op args obs)
+  <|> (Driver.C02.handle op args obs)
 
 def processLine (line : String) : String :=
   let line := line.trimRight
